@@ -168,29 +168,35 @@ GOOD_STAT = {"STR": 4000.0, "DEX": 4000.0, "INT": 4000.0, "LUK": 4000.0, "attack
 
 
 def _tables(kind, target):
-    """per slot: the list of Stat contributions by state value 0, 1, ... as the target reads them"""
+    """per slot: (the list of Stat contributions by index as the tables hold them, the index the target reads when the slot's
+    state goes from 0 to 1 -- None for the two targets whose state IS the index)"""
     from simaple.core import Stat
     if kind == "hyperstat":
-        return [list(o) for (_p, o) in target._hyperstat_prototype.options]
+        return [(list(o), None) for (_p, o) in target._hyperstat_prototype.options]
     if kind == "union_occupation":
-        return [[v[0] for v in row] for row in target._union_occupation_prototype.occupation_value]
+        return [([v[0] for v in row], None) for row in target._union_occupation_prototype.occupation_value]
     if kind == "union_squad":
         sq = target._union_squad
-        return [[Stat(), b.get_stat(s)] for b, s in zip(sq.blocks, sq.block_size)]
+        return [([Stat()] + list(b.options), s) for b, s in zip(sq.blocks, sq.block_size)]
     ls = target._link_skillset
-    return [[Stat(), l.get_stat(s)] for l, s in zip(ls.links, ls.link_levels)]
+    return [([Stat()] + list(l.options), s) for l, s in zip(ls.links, ls.link_levels)]
 
 
 def scan_tables(kind, target):
-    """(slot, level, field, before, after) where an entry is negative or lower than the entry before it"""
+    """entries of the real tables that are negative or lower than the entry before them:
+    {slot, level (the state value before the raise that reaches the entry, when a raise can), index, field, before, after}"""
     out = []
-    for i, tab in enumerate(_tables(kind, target)):
+    for i, (tab, used) in enumerate(_tables(kind, target)):
         for l, s in enumerate(tab):
             d = s.model_dump()
             prev = tab[l - 1].model_dump() if l else None
             for f, v in d.items():
                 if v < 0 or (prev is not None and v < prev[f]):
-                    out.append({"slot": i, "level": l - 1 if l else 0, "field": f, "before": prev[f] if prev else 0.0, "after": v})
+                    if used is None:
+                        lvl = l - 1 if l else None
+                    else:                       # a mask slot reads entry `used` only, coming from the empty contribution
+                        lvl = 0 if (l == used and v < 0) else None
+                    out.append({"slot": i, "level": lvl, "index": l, "field": f, "before": prev[f] if prev else 0.0, "after": v})
     return out
 
 
@@ -250,8 +256,11 @@ def job_optimizer(job):
             out["errors"].append("table scan %s: %r" % (kind, e))
             continue
         out["scan"][kind] = {"entries_not_monotone_or_negative": len(dips), "first": dips[:3]}
+        if kind == "hyperstat":
+            cost = list(_mk(kind, GOOD_STAT, logics[0], 300, [])._hyperstat_prototype.cost)
+            out["scan"][kind]["negative_cost_entries"] = [[i, c] for i, c in enumerate(cost) if c < 0]
         tried = 0
-        for d in dips[:6]:
+        for d in [x for x in dips if x["level"] is not None][:6]:
             for lg in logics:
                 tried += 1
                 try:
@@ -287,25 +296,34 @@ if __name__ == "__main__":
 
 # ====================================================================================== driver side
 def _spawn(job):
+    """start a worker; its output goes to temporary files (a pipe would fill up and block a worker with a large result)"""
+    import tempfile
     from lib.vf import PY, REPO, VERIF
     env = dict(os.environ)
     env["PYTHONPATH"] = "%s:%s" % (REPO, VERIF / "tools")
     env["PYTHONDONTWRITEBYTECODE"] = "1"
     env["PYTHONHASHSEED"] = "0"
-    p = subprocess.Popen([PY, str(VERIF / "tools" / "lib" / "h_targets.py")], stdin=subprocess.PIPE, stdout=subprocess.PIPE,
-                         stderr=subprocess.PIPE, text=True, env=env, cwd=str(VERIF))
-    p.stdin.write(json.dumps(job))
-    p.stdin.close()
+    fin, fout, ferr = tempfile.TemporaryFile("w+"), tempfile.TemporaryFile("w+"), tempfile.TemporaryFile("w+")
+    fin.write(json.dumps(job))
+    fin.seek(0)
+    p = subprocess.Popen([PY, str(VERIF / "tools" / "lib" / "h_targets.py")], stdin=fin, stdout=fout, stderr=ferr,
+                         text=True, env=env, cwd=str(VERIF))
+    p._files = (fin, fout, ferr)
     return p
 
 
-def _collect(p, timeout=600):
+def _collect(p, timeout=900):
+    fin, fout, ferr = p._files
     try:
         p.wait(timeout=timeout)
     except subprocess.TimeoutExpired:
         p.kill()
         return None, "timeout after %ss" % timeout
-    out, err = p.stdout.read(), p.stderr.read()
+    fout.seek(0)
+    ferr.seek(0)
+    out, err = fout.read(), ferr.read()
+    for f in (fin, fout, ferr):
+        f.close()
     if "@@RESULT@@" not in out:
         return None, (err or out)[-1500:]
     return json.loads(out.split("@@RESULT@@", 1)[1]), None
@@ -394,6 +412,23 @@ def err_of(log: str) -> str:
     return " ".join(ls[-3:])[:400]
 
 
+def lemma_at(ctx, relpath, log):
+    """name of the lemma inside which the build stopped"""
+    import re
+    m = re.search(r'File "\./%s", line (\d+)' % re.escape(relpath), log)
+    if not m:
+        return None
+    try:
+        lines = (ctx.coq / relpath).read_text().splitlines()[:int(m.group(1))]
+    except OSError:
+        return None
+    for l in reversed(lines):
+        mm = re.match(r"\s*(?:Lemma|Theorem|Example|Definition)\s+([A-Za-z0-9_']+)", l)
+        if mm:
+            return mm.group(1)
+    return None
+
+
 def run(ctx):
     """-> list of implementation findings (dicts with `what`, `mode`, ...) for the caller's verdict; records everything
     else in ctx.broken / ctx.cov["targets"]"""
@@ -428,20 +463,25 @@ def run(ctx):
             f.unlink()
         cov["translator"] = {"rejected": repr(e)[:500]}
     props_ok = False
+    props_future = None
     if meta is not None:
         ok, log, failed = ctx.build(BUILD)
         if ok:
-            props_ok = ctx.check_props(PROPS)
+            # compile the property file (28 x Print Assumptions over the generated tables) while the shards are evaluated
+            from concurrent.futures import ThreadPoolExecutor
+            pool = ThreadPoolExecutor(1)
+            props_future = pool.submit(ctx.check_props, PROPS)
         else:
             src = (ctx.coq / PROPS).read_text() if (ctx.coq / PROPS).exists() else ""
             ctx.obligations += max(1, src.count("\nTheorem "))
-            ctx.broken.append("real optimizer targets (Props/C19_targets.v): Coq build failed at %s: %s" % (failed, err_of(log)))
-            cov["build_failed_at"] = failed
+            where = lemma_at(ctx, failed, log) if failed else None
+            ctx.broken.append("real optimizer targets (Props/C19_targets.v): proof obligation %s of %s no longer holds for the "
+                              "objectives regenerated from the tree: %s" % (where or "?", failed, err_of(log)))
+            cov["build_failed_at"] = {"file": failed, "lemma": where}
     else:
         src = (ctx.coq / PROPS).read_text() if (ctx.coq / PROPS).exists() else ""
         ctx.obligations += max(1, src.count("\nTheorem "))
-    cov["props_ok"] = props_ok
-    cov["seconds_translate_build_props"] = round(time.time() - t0, 1)
+    cov["seconds_translate_build"] = round(time.time() - t0, 1)
 
     # ---- 2./3. correspondence
     cases, inits, levels = [], [], []
@@ -487,6 +527,10 @@ def run(ctx):
                               "case": c})
     elif meta is not None and not model_ok:
         cov["correspondence_skipped"] = "generated model did not build"
+    if props_future is not None:
+        props_ok = bool(props_future.result())
+        pool.shutdown()
+    cov["props_ok"] = props_ok
     for d in diffs[:5]:
         ctx.broken.append("generated target model and implementation disagree: %s" % json.dumps(d, ensure_ascii=False, default=str)[:400])
     cov.update({
@@ -511,13 +555,23 @@ def run(ctx):
         for e in r["errors"]:
             ctx.broken.append("targets optimizer worker: %s" % e[:300])
         findings += r["findings"]
+        for kind, sc in r["scan"].items():
+            if sc["entries_not_monotone_or_negative"]:
+                ctx.broken.append("the shipped %s tables are not monotone / non-negative (%d entries), e.g. slot %s field %s: "
+                                  "index %s holds %s after %s" % (kind, sc["entries_not_monotone_or_negative"], sc["first"][0]["slot"],
+                                                                 sc["first"][0]["field"], sc["first"][0]["index"],
+                                                                 sc["first"][0]["after"], sc["first"][0]["before"]))
+        neg = (r["scan"].get("hyperstat") or {}).get("negative_cost_entries")
+        if neg:
+            ctx.broken.append("the shipped hyper stat cost table has negative entries (index, cost): %s" % neg[:4])
         cov["optimizer_runs"] = {"runs": len(r["runs"]), "with_steps": sum(1 for x in r["runs"] if x.get("steps")),
                                  "skipped_outside_domain": sum(1 for x in r["runs"] if x.get("skipped")),
                                  "findings": len(r["findings"]), "table_scan": r["scan"]}
     cov["seconds"] = round(time.time() - t0, 1)
+    n_thm = (ctx.coq / PROPS).read_text().count("\nTheorem ") if (ctx.coq / PROPS).exists() else 0
+    cov["model_files"] = ["gen/Targets.v", "Model/TargetsRt.v", "Model/Targets.v"]
     ctx.log("real targets: %d theorems ok=%s, %d correspondence cases, %d differences, %d findings, %.0fs" % (
-        len([k for k in ctx.theorems if k.startswith("C19_") and ("hyperstat" in k or "union" in k or "link" in k or "targets" in k)]),
-        props_ok, cov["cases"], len(diffs), len(findings), time.time() - t0))
+        n_thm, props_ok, cov["cases"], len(diffs), len(findings), time.time() - t0))
     return findings
 
 
